@@ -271,7 +271,7 @@ def run(chk, replay=None):
             # one verdict per record and concern: the clauses of one record are consequences of
             # one another (an attribute that is not the image also breaks AssumptionsKept, ...);
             # the first clause in specification order names the finding, the rest is in the replay
-            concern = "receiver" if clause == "OriginalUnchanged" else "drift" if clause in ("WarnsExactly", "KinInjective") else "result"
+            concern = "receiver" if clause == "OriginalUnchanged" else "original" if clause == "OriginalParametersIndependent" else "drift" if clause in ("WarnsExactly", "KinInjective") else "result"
             if concern != "drift":
                 if (rid, concern) in reported:
                     continue
@@ -358,7 +358,7 @@ def run(chk, replay=None):
     # vacuity of the trace runs: every antecedent must have been exercised by some record
     if not chk.violations and not replay:
         missing = [k for k in ("rename", "changed", "couples", "couples_unequal_defaults", "closure_antecedent", "inadmissible", "warned",
-                               "get", "set", "get_keyerror", "set_keyerror", "pickle") if trace_totals.get(k, 0) == 0]
+                               "get", "set", "set_on_other_object", "get_keyerror", "set_keyerror", "pickle") if trace_totals.get(k, 0) == 0]
         if missing:
             raise Machinery(f"vacuous trace validation: no record exercised {missing}")
     chk.part("trace_totals", **trace_totals)
